@@ -5,7 +5,7 @@ HOOKS = {
     "guard": GUARD,
     "enable": "verification builds under /verif/build/<flavour> are configured by setup.sh with -DUCL_STIR_VERIF in CMAKE_CXX_FLAGS (plus an include-path shim for assert()); the harness units are compiled with the same define",
     "baseline_off_cmd": "cmake --build /repo/_build -j16 && ctest --test-dir /repo/_build -j8 --timeout 900",
-    "source_commits": ["5f63d4799", "667c45c39", "9b7794cda"],
+    "source_commits": ["5f63d4799", "667c45c39", "9b7794cda", "526482b4b"],
     "add_only": True,
 }
 
